@@ -8,56 +8,57 @@
 From Mos Require Import Base.Prelude Limit.Limiter Limit.LimiterProofs Limit.LimiterConc Limit.LimiterConcProofs.
 Local Open Scope Z_scope.
 
-(* Window bound, histories without a collector run.  For every arrival sequence with non-decreasing
-   timestamps, every key and every window:
+(* Window bound.  For every history of arrivals AND collector runs with non-decreasing timestamps, every
+   rate > 0 and burst >= 0, every key and every window:
        granted * 10^9  <=  burst * 10^9 + rate * (t1 - t0) + (rate - 1)
    i.e. strictly less than  burst + rate * (window + 1 ns).  The last summand (< one nanosecond of refill)
    is x/time/rate's truncation of the wait time to whole nanoseconds; it is attained (C15_bound_slack_attained),
-   so the literal  burst + rate * window  can be exceeded by less than rate * 10^-9 token. *)
+   so the literal  burst + rate * window  can be exceeded by less than rate * 10^-9 token.
+   The collector (gc) is part of the history: it may run at any time.  It drops an entry only when the entry is
+   idle for more than entryTtl AND its bucket has refilled completely, so a dropped bucket and the full bucket
+   created at the subnet's next arrival are indistinguishable.  (Before the repair of finding K3 the collector
+   dropped every idle entry and the bound failed for burst > 60 * rate: the former statement C15_gc_refuted.) *)
 Theorem C15_bound : forall (o : opts) (k : lim_addr) (t0 t1 : Z) (h : list lev),
-  0 < o_limit o -> 0 <= o_burst o -> lim_sorted h = true -> has_gc h = false -> t0 <= t1 ->
+  0 < o_limit o -> 0 <= o_burst o -> lim_sorted h = true -> t0 <= t1 ->
   lim_granted o k t0 t1 h (lim_decisions o [] h) * SCALE
     <= o_burst o * SCALE + o_limit o * (t1 - t0) + (o_limit o - 1).
-Proof. exact bound_nogc. Qed.
+Proof. exact bound_general. Qed.
 Print Assumptions C15_bound.
 
-(* The same bound with arbitrary collector runs interleaved, provided burst <= 60 * rate
-   (entryTtl = 60 s: an entry idle for longer than a minute has refilled completely, so dropping it
-   loses nothing). *)
-Theorem C15_bound_gc : forall (o : opts) (k : lim_addr) (t0 t1 : Z) (h : list lev),
-  0 < o_limit o -> 0 <= o_burst o -> lim_sorted h = true -> o_burst o <= 60 * o_limit o -> t0 <= t1 ->
-  lim_granted o k t0 t1 h (lim_decisions o [] h) * SCALE
-    <= o_burst o * SCALE + o_limit o * (t1 - t0) + (o_limit o - 1).
-Proof. exact bound_gc. Qed.
-Print Assumptions C15_bound_gc.
-
-(* The bound for the options as configured (after setDefault), whatever was omitted. *)
+(* The bound for the options as configured (after setDefault), whatever was omitted; no side condition. *)
 Theorem C15_bound_configured : forall (cfg : opts) (k : lim_addr) (t0 t1 : Z) (h : list lev),
   let o := set_default cfg in
-  lim_sorted h = true -> (has_gc h = true -> o_burst o <= 60 * o_limit o) -> t0 <= t1 ->
+  lim_sorted h = true -> t0 <= t1 ->
   lim_granted o k t0 t1 h (lim_decisions o [] h) * SCALE
     <= o_burst o * SCALE + o_limit o * (t1 - t0) + (o_limit o - 1).
 Proof.
-  intros cfg k t0 t1 h o S G T. pose proof (default_wf cfg) as W. cbn zeta in W.
+  intros cfg k t0 t1 h o S T. pose proof (default_wf cfg) as W. cbn zeta in W.
   apply bound_general; auto; fold o in W; lia.
 Qed.
 Print Assumptions C15_bound_configured.
 
-(* Finding K3: with burst > 60 * rate the bound fails once the collector runs: a collected bucket is
-   reborn full.  Witness: rate 1, burst 1000; 2000 granted within 60.000000001 s, and the second
-   arrival is refused when the collector does not run. *)
-Theorem C15_gc_refuted : exists (o : opts) (k : lim_addr) (t0 t1 : Z) (h : list lev),
-  0 < o_limit o /\ 0 <= o_burst o /\ lim_sorted h = true /\ t0 <= t1 /\ 60 * o_limit o < o_burst o /\
-  ~ (lim_granted o k t0 t1 h (lim_decisions o [] h) * SCALE
-       <= o_burst o * SCALE + o_limit o * (t1 - t0) + (o_limit o - 1)).
+(* Non-vacuity of the bound across collector runs, on the parameters of the former finding K3 (rate 1, burst 1000 >
+   60 * rate): the history  spend 1000 at t = 0, collector at 60.000000001 s, ask 1000 again  contains a collector
+   run, the entry survives it (only 60 of 1000 tokens have refilled), the second arrival is refused exactly as
+   without the collector, and the window bound holds (it did not before the repair: 2000 granted);
+   after 1000 s of silence the bucket is full again, the collector drops the entry, and the client is
+   rightly granted a new burst. *)
+Theorem C15_gc_keeps_unrefilled_entries :
+  lim_sorted k3_history = true /\ has_gc k3_history = true /\ 60 * o_limit k3_opts < o_burst k3_opts /\
+  lim_decisions k3_opts [] k3_history = [Some true; None; Some false] /\
+  lim_granted k3_opts k3_key 0 k3_t k3_history (lim_decisions k3_opts [] k3_history) * SCALE
+    <= o_burst k3_opts * SCALE + o_limit k3_opts * (k3_t - 0) + (o_limit k3_opts - 1) /\
+  lim_lookup k3_key (lim_final k3_opts [] [EvAllow 0 k3_client 1000; EvGc k3_t]) <> None /\
+  lim_lookup k3_key (lim_final k3_opts [] [EvAllow 0 k3_client 1000; EvGc (1000 * SCALE)]) = None /\
+  lim_decisions k3_opts [] [EvAllow 0 k3_client 1000; EvGc (1000 * SCALE); EvAllow (1000 * SCALE) k3_client 1000]
+    = [Some true; None; Some true].
 Proof.
-  exists k3_opts, k3_key, 0, k3_t, k3_history.
-  destruct k3_witness as (S & _ & B & _).
-  split; [reflexivity|]. split; [discriminate|]. split; [exact S|]. split; [discriminate|].
-  split; [reflexivity|].
-  intros H. apply Z.leb_le in H. unfold bound_ok, bound_ok_ds in B. rewrite H in B. discriminate.
+  destruct k3_witness as (S & G & D & B & _ & K & C & R).
+  split; [exact S|]. split; [exact G|]. split; [reflexivity|]. split; [exact D|].
+  split; [|split; [exact K|split; [exact C|exact R]]].
+  apply (C15_bound k3_opts k3_key 0 k3_t k3_history); [reflexivity|discriminate|exact S|discriminate].
 Qed.
-Print Assumptions C15_gc_refuted.
+Print Assumptions C15_gc_keeps_unrefilled_entries.
 
 (* The slack of one nanosecond of refill is attained (rate 3, burst 1): the literal bound
    burst + rate * window is exceeded by 10^-9 token. *)
@@ -188,10 +189,10 @@ Theorem C15_config_isolation : forall (c : lim_config) (k : lim_addr) (t0 : Z) (
 Proof. exact config_isolation. Qed.
 Print Assumptions C15_config_isolation.
 
-(* The window bound for the client limiter of any configuration (subnet keys = cfg_subnet by C15_config_key). *)
+(* The window bound for the client limiter of any configuration (subnet keys = cfg_subnet by C15_config_key),
+   collector runs included. *)
 Theorem C15_config_bound : forall (c : lim_config) (o : opts) (k : lim_addr) (t0 t1 : Z) (h : list lev),
-  cfg_client c = Some o ->
-  lim_sorted h = true -> (has_gc h = true -> o_burst o <= 60 * o_limit o) -> t0 <= t1 ->
+  cfg_client c = Some o -> lim_sorted h = true -> t0 <= t1 ->
   lim_granted o k t0 t1 h (lim_decisions o [] h) * SCALE
     <= o_burst o * SCALE + o_limit o * (t1 - t0) + (o_limit o - 1).
 Proof. exact config_bound. Qed.
